@@ -52,6 +52,9 @@ func invFns() []invFn {
 		{name: "fthrown", def: "fthrown := func(x) { return call(fthrow, x) + 1 }", min: 1, kind: "int", throws: true},
 		{name: "fpanic", def: "fpanic := func(x) { try { c++; if x > 0 { gopanic() }; return c } catch e { c += 1000; return [-7, c] } }", min: 1, kind: "int"},
 		{name: "fpanic2", def: "fpanic2 := func(x) { c++; if x > 0 { gopanic() }; return c }", min: 1, kind: "int", throws: true},
+		{name: "fdrain", def: "var fdrain\nfdrain = func(n) { c++; if n <= 0 { return c }; fdrain(n - 1) }", min: 1, kind: "small"},
+		{name: "fdrain2", def: "var fdrain2\nfdrain2 = func(n) { c++; if c > n + 3 { return c }; fdrain2(n) }", min: 1, kind: "small"},
+		{name: "ftail", def: "var ftail\nftail = func(n) { c++; if n <= 0 { return c * 2 }; return ftail(n - 1) }", min: 1, kind: "small"},
 		{name: "fundef", def: "fundef := func(a, b) { if b == undefined { return -1 }; return a }", min: 2, kind: "any"},
 	}
 }
